@@ -28,6 +28,9 @@ pub enum Pattern {
     DeadThread,
     HashOfBoxes,
     GrowAndDropList,
+    /// rings kept alive only by a host root (`SteelVal::as_rooted` taken by a host function of the worker),
+    /// eight at a time: the root taken 8 iterations ago is released (after collections have run since it was taken)
+    HostRoots,
 }
 pub const PATTERNS: &[Pattern] = &[
     Pattern::AcyclicBoxes,
@@ -44,6 +47,7 @@ pub const PATTERNS: &[Pattern] = &[
     Pattern::DeadThread,
     Pattern::HashOfBoxes,
     Pattern::GrowAndDropList,
+    Pattern::HostRoots,
 ];
 
 #[derive(Clone, Debug, Serialize, Deserialize)]
@@ -77,6 +81,11 @@ const PRELUDE: &str = r#"(struct cell (next val) #:mutable)
 (define (self-closure i) (letrec ((f (lambda () (if (< i 0) f i)))) f))
 (define (closure-box-cycle i) (let* ((b (box i)) (f (lambda () (unbox b)))) (set-box! b f) f))
 (define (dead-continuation i) (let ((b (box i)) (kept #f)) (+ 1 (call/cc (lambda (k) (set! kept k) 1))) (unbox b)))
+(define root-handles (make-vector 8 #f))
+(define (host-roots k i)
+  (let ((slot (modulo i 8)))
+    (when (vector-ref root-handles slot) (host-unroot! (vector-ref root-handles slot)))
+    (vector-set! root-handles slot (host-root! (vector (box i) i (ring-boxes k i))))))
 (define (run pattern k n live)
   (let loop ((i 0))
     (if (= i n)
@@ -96,6 +105,7 @@ const PRELUDE: &str = r#"(struct cell (next val) #:mutable)
                 ((= pattern 10) (dead-continuation i))
                 ((= pattern 11) (when (= 0 (modulo i 500)) (thread-join! (spawn-native-thread (lambda () (ring-boxes k i) (vector i) 0)))))
                 ((= pattern 12) (hash 'a (box i) 'b (vector (box i))))
+                ((= pattern 14) (host-roots k i))
                 (else (let grow ((j 0) (acc '())) (if (< j k) (grow (+ j 1) (cons (box j) acc)) (length acc)))))
           (loop (+ i 1))))))
 (define (stats) (#%gc-collect) (#%verif-heap-stats))"#;
@@ -221,7 +231,7 @@ fn check_cfg(ctx: &Ctx, ws: &mut Workers, c: &Case19, counting: bool, cfg: &Conf
             "(value slots, free, -, vector slots, free, -) after a full collection\n  before:            {:?}\n  after {:>9} it: {:?}\n  after {:>9} more: {:?}\nlive value slots {} -> {} -> {}, live vector slots {} -> {} -> {}",
             st3[0], c.n, st3[1], 4 * c.n, st3[2], l0v, l1v, l2v, l0c, l1c, l2c
         );
-        let slack = 64 + c.live as i64 + 2 * c.k as i64;
+        let slack = 64 + c.live as i64 + 2 * c.k as i64 + if c.pattern == Pattern::HostRoots { 8 * (c.k as i64 + 3) } else { 0 };
         if l2v > l1v + slack || l2c > l1c + slack || l1v > l0v + slack + 64 || l1c > l0c + slack + 64 {
             return Err(Failure::new(format!("c19:live-slots-grow:{}", key), format!("{}{}\nthe number of live slots grows with the iteration count (allowed slack {})", shown, table, slack)));
         }
@@ -288,10 +298,11 @@ const WEAK: &str = r#"(define strong (box 'kept))
 
 pub fn run(ctx: &Ctx, replay: Option<&str>) -> i32 {
     ctx.set_rule(
-        "14 allocation patterns with a bounded live set (0-40 boxes kept in a ring buffer): acyclic boxes / vectors / structs, \
+        "15 allocation patterns with a bounded live set (0-40 boxes kept in a ring buffer): acyclic boxes / vectors / structs, \
          rings of length 1-9 through boxes, vectors built with vector and with make-vector, mutable struct fields, a mix; \
          closures that capture themselves directly and through a box; garbage referenced only from a dropped continuation; \
-         garbage produced by native threads that have been joined; hash maps of boxes; lists of boxes grown and dropped. Each \
+         garbage produced by native threads that have been joined; hash maps of boxes; lists of boxes grown and dropped; \
+         rings held only by host roots (SteelVal::as_rooted taken by a host function, released eight iterations later). Each \
          runs n then 4n more iterations (n = 2000..40000; thorough up to 3*10^6) under natural collections or with a full \
          collection forced every 100-3000 allocations; heap statistics are read after a requested full collection before, \
          between and after; two thirds of the natural-collection cases run on a scaled heap (growth chunk 8-256 slots \
